@@ -145,6 +145,17 @@ Theorem C17_regeneration_write_step : forall body c force s,
 Proof. intros. split; reflexivity. Qed.
 Print Assumptions C17_regeneration_write_step.
 
+(* 5. Several output files in one run.  The file of a job is rendered from that job's own
+   boilerplate path (the bytes the file system holds at exactly that path string) and tags: it
+   does not depend on which other files the run writes, before or after, or on their settings -
+   so theorems 1-3 apply to every file of a run with ITS OWN boilerplate bytes and tags. *)
+Theorem C17_files_independent : forall body fsys pre j post,
+  length (run_all body fsys (pre ++ j :: post)) = length (pre ++ j :: post) /\
+  nth (length pre) (run_all body fsys (pre ++ j :: post)) None =
+  option_map (render_file body) (job_settings fsys j).
+Proof. intros. split; [apply run_all_length | apply run_all_independent]. Qed.
+Print Assumptions C17_files_independent.
+
 (* the parser's fuel is always sufficient: never OutOfFuel *)
 Theorem C17_parser_total : forall acc ts, or_from (fuel_for ts) acc ts <> PFuel.
 Proof. exact or_from_total. Qed.
